@@ -262,6 +262,8 @@ func registerSym() {
 		return nil
 	})
 	regSym("Yield", func(fr *frame, args []value) value { fr.i.sched.yield("storage-callback"); return nil })
+	regSym("Lock", func(fr *frame, args []value) value { return nil })
+	regSym("Unlock", func(fr *frame, args []value) value { return nil })
 	regSym("LetOthersRun", func(fr *frame, args []value) value { fr.i.sched.letOthersRun(); return nil })
 	regSym("RealReference", func(fr *frame, args []value) value {
 		// interpret the real reference engine instead of the counting model
